@@ -30,7 +30,7 @@ What is related, and how
   report must be possible at all (`reportTargetOk`: the chunk's template is the VM's or is
   registered — Props/C07Vm.lean has the same hypothesis).
 -/
-import TeraModel.Lemmas.RefineNode
+import TeraModel.Lemmas.RefineDomain
 import TeraModel.Lemmas.EvalFuel
 namespace Tera.Refine
 open Tera Tera.Vm Tera.Compiler
@@ -58,11 +58,11 @@ example (ctx g : Ctx) :
 /-- inside a loop the two scopes differ (in `endIp`) and still correspond -/
 example : ScopeRel (State.fresh (.mk [{ ForLoop.new [] with endIp := 7 }] [] none [] none))
     (.mk [{ ForLoop.new [] with endIp := ITERATE_END_IP }] [] none [] none) :=
-  ⟨⟨⟨rfl, by simp [ITERATE_END_IP]⟩, trivial⟩, rfl, rfl, rfl, rfl⟩
+  .root [] [] none ⟨⟨rfl, by simp [ITERATE_END_IP]⟩, trivial⟩
 /-- … and it is not the trivial relation -/
 example : ¬ ScopeRel (entryState none [("x", .u64 1)] []) (Scope.root [] []) := by
   intro h
-  have := h.2.2.2.1
+  have := ScopeSim.context_eq h
   simp [entryState, State.fresh, Scope.root, Scope.context] at this
 
 /-! ## R1: `compile_expr_correct` -/
@@ -566,6 +566,49 @@ theorem render_correct_compiled (venv : Vm.Env) (eenv : Tera.Env) (hE : EnvRel v
   rw [hmain] at hemb
   exact render_correct_core venv eenv hE hB name tpl t.nodes vcode hv hpar hchunk hemb he lf hcore ctx g fuel
 
+/-! ## The domain as a check
+
+`exprInCore` / `nodesInCore` (Lemmas/RefineDomain.lean) are executable: a harness can evaluate
+them on the AST of every template it renders and so measure how much of its corpus is inside the
+proved domain.  What fails the check: component calls, `include`, `block`, and shapes the parser
+never produces (binary `Is` / `Pipe`, stray `break` / `continue`, a repeated keyword-argument
+name, a non-filter in a set block's filter chain). -/
+
+/-- `compile_expr_correct` for every expression that passes the check -/
+theorem compile_expr_correct_checked : CompileExprCorrect (fun e => exprInCore e = true) false :=
+  fun venv eenv vm name pre post vcode loop e hP =>
+    compile_expr_correct_core false venv eenv vm name pre post vcode loop e (exprInCore_sound e hP)
+
+/-- `compile_node_correct` for every statement list that passes the check -/
+theorem compile_nodes_correct_checked :
+    CompileNodesCorrect (fun n => nodeInCore false n = true) false :=
+  fun venv eenv vm name pre post vcode loop ns hP =>
+    compile_nodes_correct_core false venv eenv vm name pre post vcode loop ns
+      (fun n hn => nodeInCore_sound false n (hP n hn))
+
+/-- `Tera.render` = `Vm.render` on the model compiler's output for every template whose body
+passes the check -/
+theorem render_correct_checked (venv : Vm.Env) (eenv : Tera.Env) (hE : EnvRel venv eenv)
+    (hB : BuiltinsRel venv eenv) (name : String) (tpl : TemplateInfo) (t : Template)
+    (comp : Compiled) (vcode : List VEntry) (hcomp : compileTemplate t = .ok comp)
+    (hv : venv.template name = some tpl) (hpar : tpl.parents = [])
+    (hchunk : tpl.chunk = ⟨tpl.name, vcode⟩) (hemb : embed comp.main = some vcode)
+    (he : eenv.template name = some ⟨t.nodes, tpl.autoescape⟩)
+    (hcheck : nodesInCore false t.nodes = true) (ctx g : Ctx) (fuel : Nat) :
+    (∀ text, Tera.render fuel eenv name ctx g = .ok text →
+      ∃ n, ∀ depth steps, n ≤ steps →
+        Vm.render ⟨depth + 1, steps⟩ venv name none ctx g = .ok text)
+    ∧ (∀ err, Tera.render fuel eenv name ctx g = .error err → reportable err = true →
+      ∃ n re, errMatch err re = true ∧ ∀ depth steps, n ≤ steps →
+        Vm.render ⟨depth + 1, steps⟩ venv name none ctx g = .err re) := by
+  have h := render_correct_compiled venv eenv hE hB name tpl t comp vcode hcomp hv hpar hchunk hemb he
+    false (nodesInCore_sound false t.nodes hcheck) ctx g fuel
+  refine ⟨fun text ht => ?_, fun err he hr => ?_⟩
+  · obtain ⟨n, _, hn⟩ := h.1 text ht
+    exact ⟨n, hn⟩
+  · obtain ⟨n, re, _, hm, hn⟩ := h.2 err he hr
+    exact ⟨n, re, hm, hn⟩
+
 /-! ## Spot checks: concrete expressions through both models (kernel-evaluated)
 
 `agree e ctx`: evaluate `e` with the evaluator in `Scope.root ctx []`; compile it at index 0,
@@ -953,5 +996,60 @@ example : agreeT exCaptures true [] = true := by decide +kernel
 /-- a filter that rejects its input (`upper` of the captured text is fine, `length` of it too; make
 `x` a number so that `upper` still sees a string but the set block's `trim` sees text): -/
 example : agreeT exCaptures false [("x", .u64 5)] = true := by decide +kernel
+
+/-! ### from SOURCE TEXT
+
+`agreeSrc src ctx`: the lexer, whitespace-filter and parser models (Model/Pipeline.lean `front`)
+turn the source into an AST; the AST must pass the domain check `nodesInCore`; then the evaluator
+on the AST against compiler + VM, as above (autoescape on).  So these are spot checks of
+`render_correct_checked` on ASTs the parser model really produces. -/
+
+def srcOf (s : String) : List Nat := s.toList.map fun c => c.toNat
+
+def agreeSrc (src : String) (ctx : Ctx) : Bool :=
+  match Pipeline.front Generated.defaultDelims (srcOf src) with
+  | .ok t => nodesInCore false t.nodes && agreeT t.nodes true ctx true
+  | _ => false
+
+def srcCtx : Ctx :=
+  [("name", .str false ['b', '<', 'b']), ("xs", .arr [.u64 1, .u64 2, .u64 3]),
+   ("a", .map [(.str ['b'], .str false [])]), ("m", .map [(.str ['k'], .u64 7), (.str ['j'], .u64 8)])]
+
+example : agreeSrc ("Hello {{ name | upper }}! {% for x in xs %}{{ loop.index }}={{ x * 2 }}"
+    ++ "{% if not loop.last %}, {% endif %}{% else %}none{% endfor %}") srcCtx = true := by decide +kernel
+example : agreeSrc ("{{ [y + 1 for y in xs if y > 1] | length }} {% set t = a.b or 'd' %}"
+    ++ "{{ t if t else 'z' }}") srcCtx = true := by decide +kernel
+example : agreeSrc ("{% for k, v in m %}{{ k ~ '=' ~ v }}{% if v == 7 %}{% continue %}{% endif %};"
+    ++ "{% endfor %}") srcCtx = true := by decide +kernel
+example : agreeSrc ("{% filter upper %}x{{ name }}{% endfilter %}{% set_global g %}{{ xs | length }}"
+    ++ "{% endset %}{{ g }}") srcCtx = true := by decide +kernel
+example : agreeSrc ("{{ 1 + 2 * 3 }} {{ 2 ** 3 ** 2 }} {{ not a.b }} {{ xs[1:] | join(sep='-') }} "
+    ++ "{{ xs[-1] }} {{ m['k'] }} {{ name is defined and zz is not defined }}") srcCtx = true := by
+  decide +kernel
+example : agreeSrc ("{% for x in xs %}{% if x == 2 %}{% break %}{% endif %}{{ x }}{% endfor %}"
+    ++ "{{ range(end=3) | last }}{{ 7 // 2 }}{{ 7 % 4 }}{{ 1 in xs }}{{ 'b<' in name }}") srcCtx = true := by
+  decide +kernel
+example : agreeSrc ("{% if xs | length > 2 %}big{% elif xs %}small{% else %}none{% endif %}"
+    ++ "{% set mm = {\"a\": 1, ...m} %}{{ mm.a }}{{ mm.k }}{{ [0, ...xs][3] }}") srcCtx = true := by
+  decide +kernel
+example : agreeSrc ("{{ name | safe }}{{ name }}{{ name | default(value=\"q\") }}"
+    ++ "{{ qq | default(value=name) }}{{ -xs[0] }}{{ xs?.a }}{{ a?.b?.c is defined }}") srcCtx = true := by
+  decide +kernel
+/-- errors from source: an undefined base, a type error -/
+example : agreeSrc "{{ zz.y }}" srcCtx = true := by decide +kernel
+example : agreeSrc "{{ xs | first + 'a' }}" srcCtx = true := by decide +kernel
+
+/-! ### the domain check on the examples above, and on what it must refuse -/
+example : exprInCore ex1 = true ∧ exprInCore ex2 = true ∧ exprInCore ex3 = true
+    ∧ exprInCore exCompr = true := by decide
+example : nodesInCore false exBody = true ∧ nodesInCore false exLoops = true
+    ∧ nodesInCore false exCaptures = true := by decide
+example : exprInCore (.componentCall "c" [] [] true) = false := by decide
+example : exprInCore (.binary .Is (.var "a") (.var "b")) = false := by decide
+example : exprInCore (.functionCall "f" [("a", num 1), ("a", num 2)]) = false := by decide
+example : nodesInCore false [.include "x"] = false ∧ nodesInCore false [.block "b" []] = false
+    ∧ nodesInCore false [.break] = false ∧ nodesInCore false [.forLoop none "x" (.var "xs") [.break] []] = true
+    ∧ nodesInCore false [.forLoop none "x" (.var "xs") [.filterSection "upper" [] [.break]] []] = false := by
+  decide
 
 end Tera.Refine
